@@ -723,10 +723,33 @@ def canon_expr(node: ast.AST, env: Env) -> Term:
             if sa is not None and sa[0] in ('n', 'attr'):
                 # an array of the same shape as a named array: its length is that array's length
                 return atom(('alloc', fn[3:-5], atom(('call', 'len', (a0,)))))
+        if fn in ('np.square', 'numpy.square') and len(args) == 1 and not kws and is_poly(args[0]):
+            return mul(args[0], args[0])
+        if fn in ('np.diff', 'numpy.diff') and len(args) == 1 and not kws:
+            # np.diff(X) is X[1:] - X[:-1]; np.diff(B[a:b]) is B[a+1:b] - B[a:b-1]
+            a0 = args[0]
+            sa = single_atom(a0) if is_poly(a0) else a0
+            if sa is not None and sa[0] in ('n', 'attr', 'sub'):
+                if sa[0] == 'sub' and isinstance(sa[2], tuple) and sa[2][:1] == ('slice',) and sa[2][3] is None:
+                    B_, (_, lo_, hi_, _s) = sa[1], sa[2]
+                    lo_ = ZERO if lo_ is None else lo_
+                    nB = _len_of(B_, env)
+                    hi_ = nB if hi_ is None else hi_
+                    hi_hi = None if hi_ == nB else hi_
+                    first = atom(('sub', B_, ('slice', add(lo_, ONE), hi_hi, None)))
+                    second = atom(('sub', B_, ('slice', (None if lo_ == ZERO else lo_), sub(hi_, ONE), None)))
+                    return sub(first, second)
+                if sa[0] != 'sub':
+                    nX = _len_of(sa, env)
+                    return sub(atom(('sub', sa, ('slice', ONE, None, None))), atom(('sub', sa, ('slice', None, sub(nX, ONE), None))))
         if fn in env.call_adapters:
             fn, args = env.call_adapters[fn](fn, list(args), env)
         r = mk_call(fn, tuple(args), kws)
         return r if is_poly(r) else atom(r)
+    if isinstance(node, ast.Subscript) and isinstance(node.value, ast.Attribute) and node.value.attr == 'shape' \
+            and isinstance(node.slice, ast.Constant) and node.slice.value == 0:
+        # X.shape[0] is len(X)
+        return canon_expr(ast.Call(func=ast.Name(id='len', ctx=ast.Load()), args=[node.value.value], keywords=[]), env)
     if isinstance(node, ast.Subscript):
         base = canon_expr(node.value, env)
         bsa = single_atom(base) if is_poly(base) else base
@@ -776,6 +799,19 @@ def canon_expr(node: ast.AST, env: Env) -> Term:
         d = dotted(node)
         base = canon_expr(node.value, env)
         bsa = single_atom(base) if is_poly(base) else base
+        if node.attr == 'size' and bsa is not None:
+            # the number of elements of a one-dimensional array of known allocation is its length
+            if bsa in env.lens:
+                return env.lens[bsa]
+            if bsa[0] in ('n', 'call', 'attr', 'sub'):
+                # a plain local / parameter / computed array: the arrays of this package that are asked for their `.size` are
+                # one-dimensional (the distance matrices are allocated with a tuple - handled above - and never asked)
+                return atom(('call', 'len', (atom(bsa),)))
+            if bsa[0] == 'alloc' and not (is_poly(bsa[2]) is False and isinstance(bsa[2], tuple) and bsa[2][:1] == ('tuple',)):
+                sz = bsa[2]
+                sza = single_atom(sz) if is_poly(sz) else sz
+                if not (sza is not None and sza[0] == 'tuple'):
+                    return to_poly(sz)
         return atom(('attr', bsa if bsa is not None else ('expr', base), node.attr))
     if isinstance(node, ast.List) and any(isinstance(e, ast.Starred) for e in node.elts):
         # [a, *rest, b] is [a] + list(rest) + [b] (lists are summed as the repository's rules sum them)
